@@ -331,7 +331,7 @@ def hyp_shard(rec, shard):
 
 
 def main(ctx):
-    n = 2400 if ctx.tier == 'quick' else 80000
+    n = 6400 if ctx.tier == 'quick' else 80000
     w = 8 if ctx.tier == 'quick' else 16
     ctx.check({'kind': 'none'})
     ctx.pmap('hyp_shard', [(k, n // w) for k in range(w)])
